@@ -580,6 +580,7 @@ func (e *Exec) callByContract(ct *Contract, callee *ssa.Function, args []Val, si
 		e.vc.Trusted[fmt.Sprintf("%s (%s)", name, orStr(ct.Trusted, "model"))] = true
 	}
 	pre := e.st
+	preItems := len(e.vc.items)
 	env := e.callEnv(ct, callee, args, sig, pre, nil)
 	// 1. preconditions
 	for k, rq := range ct.Requires {
@@ -603,12 +604,10 @@ func (e *Exec) callByContract(ct *Contract, callee *ssa.Function, args []Val, si
 		for _, m := range ct.Modifies {
 			e.havocLV(env, m)
 		}
-		if len(ct.Modifies) > 0 || !ct.Pure {
-			// allocation may have happened
-			nac := e.vc.Fresh("ac", SInt)
-			e.vc.Assume(True, IntLe(e.st.ac, nac))
-			e.st.ac = nac
-		}
+		// allocation may have happened (also in a pure function: fresh results)
+		nac := e.vc.Fresh("ac", SInt)
+		e.vc.Assume(True, IntLe(e.st.ac, nac))
+		e.st.ac = nac
 	} else {
 		mods := map[string]string{}
 		if callee != nil {
@@ -635,6 +634,7 @@ func (e *Exec) callByContract(ct *Contract, callee *ssa.Function, args []Val, si
 	}
 	post.st = e.st
 	// 4. postconditions
+	nAssumed := 0
 	for _, en := range ct.Ensures {
 		t, err := post.EvalBool(en.E)
 		if err != nil {
@@ -642,6 +642,15 @@ func (e *Exec) callByContract(ct *Contract, callee *ssa.Function, args []Val, si
 			continue
 		}
 		e.vc.Assume(e.g, t)
+		nAssumed++
+	}
+	if nAssumed > 0 && !e.silent && e.depth == 0 && !e.g.IsFalse() {
+		// vacuity guard: the assumed postconditions must not contradict what is known at this call
+		// (reported only when the call itself was reachable: see coverPair)
+		line := e.P.srcLine(instrPos(in))
+		o := e.vc.Oblige("cover", fmt.Sprintf("after:%s@%s", name, trunc(line, 40)), "postconditions assumed for "+name+" are consistent with the facts at the call (vacuity guard) @ "+e.P.posString(instrPos(in)), e.P.posString(instrPos(in)), e.g, False, nil)
+		o.ExpectSat = true
+		o.coverBefore = preItems
 	}
 	return resultVal(vals, sig)
 }
@@ -802,6 +811,12 @@ func (e *Exec) finish() {
 	}
 	e.g = e.vc.Define("gret", Or(gs...))
 	e.st = e.mergeStates(edges)
+	// vacuity guard: some return must be reachable under everything assumed (contradictory preconditions,
+	// model contracts or invariants would discharge every obligation after them)
+	if e.depth == 0 && !e.silent {
+		o := e.vc.Oblige("cover", "exit", "some return is reachable under the assumptions (vacuity guard)", e.P.posString(e.fn.Pos()), e.g, False, nil)
+		o.ExpectSat = true
+	}
 	nres := e.fn.Signature.Results().Len()
 	vals := make([]Val, nres)
 	for k := 0; k < nres; k++ {
@@ -831,7 +846,23 @@ func (e *Exec) finish() {
 			env.vars[n] = CV{V: vals[i], T: e.fn.Signature.Results().At(i).Type()}
 		}
 	}
+	trustedEns := map[int]string{}
+	for _, te := range e.con.Raw["trusted_ensures"] {
+		parts := strings.SplitN(strings.TrimSpace(te), " ", 2)
+		var idx int
+		if _, err := fmt.Sscanf(parts[0], "%d", &idx); err == nil {
+			reason := ""
+			if len(parts) > 1 {
+				reason = parts[1]
+			}
+			trustedEns[idx] = reason
+		}
+	}
 	for k, en := range e.con.Ensures {
+		if reason, ok := trustedEns[k]; ok {
+			e.vc.Trusted[fmt.Sprintf("postcondition %d of %s assumed, not proved: %s (%s)", k, e.con.Fn, en.Text, reason)] = true
+			continue
+		}
 		t, err := env.EvalBool(en.E)
 		name := fmt.Sprintf("[%d]", k)
 		if err != nil {
